@@ -206,7 +206,8 @@ def stage_cargo(spec, log):
     sh([sys.executable, os.path.join(ROOT, "tools", "mkworkspace.py")], cwd=ROOT)
     cmd = ["cargo", "build", "--release", "--offline", "-p", spec["harness"]]
     rc, out, dt = sh(cmd, cwd=HARNESS, timeout=spec.get("cargo_timeout", 3000))
-    if rc != 0 and "Cargo.lock" in out and ("needs to be updated" in out or "failed to select" in out):
+    if rc != 0 and ("Cargo.lock" in out or "failed to select" in out or "yanked" in out or "needs to be updated" in out):
+        # a lock file left from an older /repo (or from before a harness gained a dependency): take /repo's again
         shutil.copy(lock_src, lock_dst)
         rc, out, dt = sh(cmd, cwd=HARNESS, timeout=spec.get("cargo_timeout", 3000))
     log.append(f"[S2] {' '.join(cmd)} rc={rc} {dt:.1f}s\n{out[-4000:]}")
